@@ -165,7 +165,14 @@ def run_threaded(sc):
         for bus in buses:
             checked(bus)
         for i, ad in ((0, a), (1, b)):
-            if kind == 'canstack':
+            if kind == 'canstack' and sc.get('set_bus'):
+                # the bus is replaced with the documented set_bus() after construction: everything - reception AND transmission, data and
+                # Flow Control - must follow the bus the stack holds NOW (the decoy, on a channel of its own, must stay silent)
+                decoy = can.interface.Bus(chan + '_decoy', interface='virtual', receive_own_messages=False, is_fd=fd)
+                cleanup.append(decoy)
+                L = isotp.CanStack(decoy, address=core.make_address(ad), error_handler=mk_err(i), params=params[i], read_timeout=sc['read_timeout'])
+                L.set_bus(buses[i])
+            elif kind == 'canstack':
                 L = isotp.CanStack(buses[i], address=core.make_address(ad), error_handler=mk_err(i), params=params[i], read_timeout=sc['read_timeout'])
             else:
                 notifier = can.Notifier(buses[i], [], timeout=0.05)
@@ -370,7 +377,7 @@ class C13(PropBase):
                 senders[side].append(items)
         return {'ops': [], 'seed': rng.randrange(1 << 30), 'transport': transport, 'addrs': (a, b), 'params': (pa, pb), 'senders': senders,
                 'latency': rng.choice([0, 0, 0.0005, 0.002]), 'read_timeout': rng.choice([0.005, 0.05, 0.2]), 'noise': rng.random() < 0.5,
-                'perturb': rng.choice([0, 0.3, 0.6])}
+                'perturb': rng.choice([0, 0.3, 0.6]), 'set_bus': transport == 'canstack' and rng.random() < 0.5}
 
     def enumerate(self, tier):
         """full duplex, both transmissions paced by a non-zero STmin: each layer streams its Consecutive Frames for longer than N_Cr while it
@@ -403,6 +410,13 @@ class C13(PropBase):
             fdp = {kk: v for kk, v in fdp.items() if v is not None}
             yield {'ops': [], 'seed': 4400 + k, 'transport': transport, 'addrs': (a, b), 'params': (dict(fdp), dict(fdp)), 'senders': senders,
                    'latency': 0, 'read_timeout': 0.05, 'noise': False, 'perturb': 0}
+
+        # CanStack whose bus was replaced with set_bus() before start(): both directions, segmented and unsegmented
+        for k in range(1 if tier == 'quick' else 4):
+            senders = {0: [[(1, bytes([0, 0, 0]) + bytes([0x77] * (30 + 9 * k))), (2, bytes([0, 0, 1]) + bytes([0x78] * 2))]],
+                       1: [[(3, bytes([1, 0, 0]) + bytes([0x79] * (20 + 5 * k)))]]}
+            yield {'ops': [], 'seed': 4500 + k, 'transport': 'canstack', 'addrs': (a, b), 'params': ({'blocksize': 2, 'stmin': 0}, {'blocksize': 0, 'stmin': 0}),
+                   'senders': senders, 'latency': 0, 'read_timeout': 0.05, 'noise': False, 'perturb': 0, 'set_bus': True}
 
     def run_impl(self, sc):
         return run_threaded(sc)
